@@ -79,7 +79,8 @@ def dt_text(rnd, isT):
     inst = lo + datetime.timedelta(days=rnd.randrange(109000), seconds=rnd.randrange(86400), milliseconds=rnd.randrange(1000))
     if rnd.random() < 0.12:
         # far from 1970 (open-ended "never expires" dates, historical records): every millisecond counts there too
-        inst = inst.replace(year=rnd.choice([1600, 1699, 2300, 4000, 9990]))
+        # (29 February becomes the 28th: most of these years are not leap years)
+        inst = inst.replace(year=rnd.choice([1600, 1699, 2300, 4000, 9990]), day=min(inst.day, 28) if inst.month == 2 else inst.day)
     off = rnd.choice([0, 0, -300, 330, -570, 60, -720, 840, rnd.randrange(-720, 841)])
     loc = inst.astimezone(datetime.timezone(datetime.timedelta(minutes=off)))
     date = "" if isT else loc.strftime("%Y%m%d")
